@@ -120,6 +120,67 @@ structure BlockTree (root : Nat) (U : List Block) : Prop where
   fresh : ∀ p, UChain U root p → Fresh p
   depth : ∀ p, UChain U root p → p.length ≤ UnwindBufLen
 
+-- ------------------------------------------------------------------------------------------ validity: scripts, removal
+
+/-- every transaction of the list from position `first = false` on has `scriptsOk` (position 0 of a block is the
+    coinbase: it has no inputs whose scripts could be run) -/
+def allOkFrom : Bool → List Tx → Bool
+  | _, [] => true
+  | first, tx :: r => (first || tx.scriptsOk) && allOkFrom false r
+
+/-- **every non-coinbase transaction of the block passed its script oracle** (`Tx.scriptsOk` = the result of
+    `VerifyTxScript` over all inputs under the block's flags: an input of this model, property C01) -/
+def scriptsPass (txs : List Tx) : Bool := allOkFrom true txs
+
+/-- `b` **fails when it is connected on top of its own branch**: there is a chain `p` of blocks of `U` from the root up to
+    `b`'s parent whose replay from the empty map succeeds, and `commitTxs` — scripts checked (`trusted = false`), at the
+    height and with the subsidy of that position — refuses `b` on the replayed map. -/
+def InvalidOnReplay (U : List Block) (root : Nat) (b : Block) : Prop :=
+  ∃ p u e, UChain U root p ∧ headR root p = b.parent ∧ replay p = some u ∧
+    commitTxs u (p.length + 1) (reward (p.length + 1)) false b.txs = .error e
+
+/-- `a` is `x` or an ancestor of `x` in the block tree `U` (parent links of the BLOCKS, not of the chain state: it
+    also speaks about blocks that are no longer — or never were — nodes of the tree) -/
+inductive UAnc (U : List Block) (a : Nat) : Nat → Prop
+  | refl : UAnc U a a
+  | step {b : Block} : b ∈ U → UAnc U a b.parent → UAnc U a b.id
+
+/-- the only excuse for a block to be missing from the tree: it, or one of its ancestors in `U`, fails when connected on
+    top of its own branch -/
+def Excused (U : List Block) (root : Nat) (x : Nat) : Prop :=
+  ∃ b ∈ U, UAnc U b.id x ∧ InvalidOnReplay U root b
+
+/-- **nothing but invalid blocks and their descendants is ever removed**: every node of `c` that is not a node of `c'`
+    is excused -/
+def Lost (U : List Block) (root : Nat) (c c' : Chain) : Prop :=
+  ∀ x, (getNode c x).isSome = true → getNode c' x = none → Excused U root x
+
+/-- stored blocks marked trusted have passed their script oracles (the mark is set only after `commitTxs` ran with the
+    scripts checked, or on a block that carried it already) -/
+def TrustedOK (c : Chain) : Prop :=
+  ∀ k s, alookup k c.store = some s → s.trusted = true → scriptsPass s.txs = true
+
+/-- every block of the path is stored with the trusted mark -/
+def PathTrusted (c : Chain) (path : List PE) : Prop :=
+  ∀ e ∈ path, ∃ s, alookup e.id c.store = some s ∧ s.trusted = true
+
+/-- outcomes after which the delivered block HAS BEEN JUDGED: it was linked into the tree (stored aside, connected, or
+    reached / not reached by a reorganisation), or refused by `commitTxs` when connected on the tip. Not admitted: a
+    duplicate (judged when it first came), an orphan (`later`: its parent is not a node of the tree at that moment —
+    `deliver_orphan_is_refused`), a block more than 2016 below the tip on another branch (`tooDeep`). -/
+def Outcome.admitted : Outcome → Bool
+  | .ok | .moveFailed | .rejected _ => true
+  | _ => false
+
+/-- one delivery, with the GHOST list (no counterpart in the code) of the ids admitted so far -/
+def deliverG (s : Chain × List Nat) (b : Block) : Chain × List Nat :=
+  ((deliver s.1 b).1, if (deliver s.1 b).2.admitted then b.id :: s.2 else s.2)
+
+/-- **completeness of the tree**: every block admitted so far is a node of the tree — unless it, or one of its
+    ancestors, fails `commitTxs` (scripts checked) on the replay of its parent's branch -/
+def Complete (U : List Block) (root : Nat) (E : List Nat) (c : Chain) : Prop :=
+  ∀ x ∈ E, (getNode c x).isSome = true ∨ Excused U root x
+
 /-- `a` is `x` or an ancestor of `x` -/
 inductive Desc (c : Chain) (a : Nat) : Nat → Prop
   | refl : Desc c a a
